@@ -679,6 +679,71 @@ func c16Round(c *vk.Ctx, r *rand.Rand, round int) bool {
 	return true
 }
 
+// c16ManyKeys: the real collectors fed directly with the reports of several hundred access keys (a large
+// server; more keys than any fixed table of series would hold): every key keeps its own series with its own sums.
+func c16ManyKeys(c *vk.Ctx) bool {
+	r := c.Rng
+	sm, err := oprom.NewServiceMetrics(&fakeDB{})
+	if err != nil {
+		fatalf("NewServiceMetrics: %v", err)
+	}
+	reg := prometheus.NewRegistry()
+	reg.MustRegister(sm)
+	nKeys := pickSeqInt(c.Batch, []int{101, 260, 1500, 130})
+	type sums struct{ cp, pt, tp, pc float64 }
+	want := map[string]*sums{}
+	for i := 0; i < nKeys; i++ {
+		key := fmt.Sprintf("user-%d", i)
+		want[key] = &sums{}
+		for a := 0; a < 1+i%2; a++ {
+			m := sm.AddUDPNatEntry(&net.UDPAddr{IP: net.IPv4(45, 70, byte(i>>8), byte(i)).To4(), Port: 20000 + a}, key)
+			cp, pt := int64(40+r.Intn(1400)), int64(1+r.Intn(1300))
+			m.AddPacketFromClient("OK", cp, pt)
+			want[key].cp += float64(cp)
+			want[key].pt += float64(pt)
+			if i%3 != 0 {
+				tp := int64(1 + r.Intn(1300))
+				m.AddPacketFromTarget("OK", tp, tp+37)
+				want[key].tp += float64(tp)
+				want[key].pc += float64(tp + 37)
+			}
+			if i%4 != 1 {
+				m.RemoveNatEntry()
+			}
+		}
+	}
+	mfs, err := reg.Gather()
+	if err != nil {
+		c.Violation("C16/gather-error", err.Error())
+		return false
+	}
+	gathered := map[string]float64{}
+	for _, mf := range mfs {
+		if mf.GetName() != "data_bytes" {
+			continue
+		}
+		for _, m := range mf.GetMetric() {
+			if ls := labelsOf(m); ls["proto"] == "udp" {
+				gathered[ls["access_key"]+"|"+ls["dir"]] += m.GetCounter().GetValue()
+			}
+		}
+	}
+	for key, w := range want {
+		for dir, v := range map[string]float64{"c>p": w.cp, "p>t": w.pt, "p<t": w.tp, "c<p": w.pc} {
+			got := gathered[key+"|"+dir]
+			if math.Abs(got-v) > 0.5 {
+				c.Violation("C16/gathered-data-bytes-differ-from-reports", map[string]any{"dir": dir, "key": key, "gathered": got, "reported_sum": v, "keys_on_the_server": nKeys, "phase": "many keys, collectors fed directly"})
+				return false
+			}
+		}
+	}
+	c.Eval(fmt.Sprintf("many-keys|%s", sizeBucket(nKeys)))
+	c.Count("many_key_audits_passed", 1)
+	return true
+}
+
+func pickSeqInt(i int, xs []int) int { return xs[i%len(xs)] }
+
 func init() {
 	vk.Register(&vk.Spec{
 		ID:          "C16",
@@ -689,8 +754,11 @@ func init() {
 		Parallel:    func(t string) int { return 4 },
 		Timeout:     func(t string) time.Duration { return 25 * time.Minute },
 		Run: func(c *vk.Ctx) {
-			for _, s := range []string{"client_datagram_reports_checked", "reply_reports_checked", "audits_passed", "failed_reply_reports", "oversized_replies_sent", "dns_single_query_clients", "expiry_cycles_reported", "datagrams_from_unaddressed_endpoints", "socket_reads_vs_reports_checked", "oversized_reply_sizes_reported_exactly", "largest_client_datagrams_reported_exactly_v4", "largest_client_datagrams_reported_exactly_v6", "rounds_with_an_empty_key_id", "rounds_through_the_service_wrapper"} {
+			for _, s := range []string{"client_datagram_reports_checked", "reply_reports_checked", "audits_passed", "failed_reply_reports", "oversized_replies_sent", "dns_single_query_clients", "expiry_cycles_reported", "datagrams_from_unaddressed_endpoints", "socket_reads_vs_reports_checked", "oversized_reply_sizes_reported_exactly", "largest_client_datagrams_reported_exactly_v4", "largest_client_datagrams_reported_exactly_v6", "rounds_with_an_empty_key_id", "rounds_through_the_service_wrapper", "many_key_audits_passed"} {
 				c.Require(s)
+			}
+			if !c16ManyKeys(c) {
+				return
 			}
 			c16Run(c)
 		},
